@@ -3,8 +3,13 @@ package props
 // C16 — Input reader failures end the transform with a fatal error (fault enumeration).
 
 import (
+	"bufio"
 	"bytes"
+	"context"
 	"fmt"
+	"io"
+	"os"
+	"syscall"
 	"testing"
 
 	"pgregory.net/rapid"
@@ -22,6 +27,11 @@ type c16Case struct {
 	Resume    int          `json:"resume"`
 	// ErrWithData: the reader returns the failure together with the last bytes before it, (n > 0, err)
 	ErrWithData bool `json:"err_with_data,omitempty"`
+	// ErrKind selects the error value of the failing Reads (see c16Errs); Wrap how the failing reader is handed to
+	// NewTransform: 0 as is, 1 inside a *bufio.Reader, 2 inside a *bufio.Reader with the minimum buffer (16 bytes),
+	// 3 inside io.MultiReader, 4 inside an io.LimitReader that never limits
+	ErrKind int `json:"err_kind,omitempty"`
+	Wrap    int `json:"wrap,omitempty"`
 	// OnlyAt restricts the enumeration to one position (used by shrunk replays); -1 = all positions
 	OnlyAt int `json:"only_at"`
 }
@@ -42,7 +52,48 @@ func genC16(t *rapid.T) c16Case {
 	c.Transient = rapid.Bool().Draw(t, "transient")
 	c.Resume = rapid.IntRange(1, 12).Draw(t, "resume")
 	c.ErrWithData = rapid.IntRange(0, 2).Draw(t, "errWithData") == 0
+	if rapid.IntRange(0, 2).Draw(t, "stdErr") == 0 {
+		c.ErrKind = rapid.IntRange(1, len(c16Errs)-1).Draw(t, "errKind")
+	}
+	if rapid.IntRange(0, 2).Draw(t, "wrapped") == 0 {
+		c.Wrap = rapid.IntRange(1, 4).Draw(t, "wrap")
+	}
 	return c
+}
+
+// c16TimeoutErr looks like a net.Error of a connection that timed out.
+type c16TimeoutErr struct{}
+
+func (c16TimeoutErr) Error() string   { return "read tcp 10.0.0.1:443: i/o timeout" }
+func (c16TimeoutErr) Timeout() bool   { return true }
+func (c16TimeoutErr) Temporary() bool { return true }
+
+// c16Errs: failures real readers produce (truncated gzip/http bodies, closed pipes, deadlines, cancelled contexts).
+// None of them is io.EOF, so each is a failure of the input reader in the sense of the property.
+var c16Errs = []error{
+	run.ErrInjected,
+	io.ErrUnexpectedEOF,
+	io.ErrClosedPipe,
+	io.ErrNoProgress,
+	os.ErrDeadlineExceeded,
+	context.Canceled,
+	c16TimeoutErr{},
+	fmt.Errorf("gzip: invalid checksum: %w", io.ErrUnexpectedEOF),
+	&os.PathError{Op: "read", Path: "/dev/stdin", Err: syscall.EIO},
+}
+
+func (c c16Case) wrap(r io.Reader) io.Reader {
+	switch c.Wrap {
+	case 1:
+		return bufio.NewReader(r)
+	case 2:
+		return bufio.NewReaderSize(r, 16)
+	case 3:
+		return io.MultiReader(r)
+	case 4:
+		return io.LimitReader(r, 1<<40)
+	}
+	return r
 }
 
 func (c c16Case) input() []byte {
@@ -77,6 +128,18 @@ func checkC16(c c16Case) obs.Result {
 	if c.ErrWithData {
 		classes = append(classes, "error-with-data")
 	}
+	if c.ErrKind < 0 || c.ErrKind >= len(c16Errs) {
+		return obs.Result{Excluded: "unknown error kind"}
+	}
+	if c.ErrKind > 0 {
+		classes = append(classes, "std-error-value")
+	}
+	if c.Wrap > 0 {
+		classes = append(classes, "wrapped-reader")
+		if c.Wrap <= 2 {
+			classes = append(classes, "bufio-reader")
+		}
+	}
 	positions := 0
 	maskedEOF := 0
 	for p := 0; p <= len(in); p++ {
@@ -90,9 +153,10 @@ func checkC16(c c16Case) obs.Result {
 		}
 		fr := run.NewFaultReader(in, c.Schedule, p, resume)
 		fr.WithData = c.ErrWithData
-		got, terr := run.Transcript(sch, fr, run.Opts{MaxReads: n + 3, ExtraRead: 2})
+		fr.Err = c16Errs[c.ErrKind]
+		got, terr := run.Transcript(sch, c.wrap(fr), run.Opts{MaxReads: n + 3, ExtraRead: 2})
 		describe := func() string {
-			return fmt.Sprintf("fault at byte %d of %d (transient=%v resume=%d with-data=%v), schedule %+v, input %q", p, len(in), c.Transient, c.Resume, c.ErrWithData, c.Schedule, in)
+			return fmt.Sprintf("fault at byte %d of %d (error %T %q, reader wrap %d, transient=%v resume=%d with-data=%v), schedule %+v, input %q", p, len(in), c16Errs[c.ErrKind], c16Errs[c.ErrKind].Error(), c.Wrap, c.Transient, c.Resume, c.ErrWithData, c.Schedule, in)
 		}
 		if terr != nil {
 			tail := got
